@@ -27,7 +27,8 @@ WITNESSES = [
     'case when a then b end', 'case case end end', 'end case', 'if a then b end if', 'for x in y loop z end loop',
     'begin a; end', 'begin begin end end', '((()))', '(()', '())', '[[]]', '[(])', 'a = b', 'a = b = c', '1 < 2 > 3',
     'a = null', 'null = a', 'a <> (b)', "x like 'y'", 'a = b + c', 'a + b = c', 'current_date + 1', '1 - current_timestamp',
-    'a b', '(a) b', 'f(x) y', '1 a', 'case when 1 then 2 end c', 'a + b c', 'a = b c', 'x y z',
+    'select insert a := x := y ;', 'select insert update a := x := y z:= ; u := v w', 'select insert a := := x ;',
+    'select a := b (c := d) e;', 'insert update delete a := b c := d e := f ;', 'a b', '(a) b', 'f(x) y', '1 a', 'case when 1 then 2 end c', 'a + b c', 'a = b c', 'x y z',
 ]
 
 
@@ -51,6 +52,33 @@ def biased(rng):
             out.append('\n')
         elif r < 0.63:
             out.append('  ')
+    return ''.join(out)
+
+
+def assign(rng):
+    """small alphabet around `:=` … `;`: the one pass whose `post` reaches far beyond `next_`, so that stale snapshot
+    tokens are visited with small non-negative `tidx` (negative offset increments, recursion skipped for `tidx < 0`)"""
+    F = [':=', ':=', ';', ';', 'a', 'x', 'select', 'insert', 'update', '(', ')', ',', '1', '+', '=', 'as', 'f(', '.', 'null',
+         'from', '--c\n', '/*c*/', 'case', 'end', '[', ']', '::', 'b c']
+    if rng.random() < 0.5:
+        # directed: a few tokens that stay flat, then runs of `name := … ;` with extra `:=` close to the `;`
+        P = ['select', 'insert', 'update', 'delete', '(x)', '1', ',', 'from']
+        B = [':=', ':=', ':=', 'a', 'x', 'y z', '1', '(b)', 'f(c := d)', 'select', ',']
+        sp = lambda: rng.choice([' ', ' ', ' ', '', '  '])
+        out = []
+        for _ in range(rng.randint(0, 4)):
+            out += [rng.choice(P), ' ']
+        for _ in range(rng.randint(1, 3)):
+            for _ in range(rng.randint(2, 8)):
+                out += [rng.choice(B), sp()]
+            out += [rng.choice([';', ';', '']), sp()]
+        return ''.join(out)
+    n = rng.randint(2, 22)
+    out = []
+    for _ in range(n):
+        out.append(rng.choice(F))
+        if rng.random() < 0.7:
+            out.append(' ')
     return ''.join(out)
 
 
@@ -103,6 +131,8 @@ def make_inputs(kind, seed, n):
         return [gen.g2(rng, 60) for _ in range(n)]
     if kind == 'biased':
         return [biased(rng) for _ in range(n)]
+    if kind == 'assign':
+        return [assign(rng) for _ in range(n)]
     if kind == 'gram':
         import gram
         gram.R = rng
@@ -140,13 +170,16 @@ def main():
     ap.add_argument('--jobs', type=int, default=16, help='jobs per generator kind')
     ap.add_argument('--seed', type=int, default=int(os.environ.get('VERIF_SEED', '1')))
     ap.add_argument('--show', type=int, default=12)
+    ap.add_argument('--driver', help='path of an alternative sqlmodel binary')
     a = ap.parse_args()
+    if a.driver:
+        common.DRIVER = a.driver
     if not os.path.exists(common.DRIVER):
         print('driver not built: cd lean && lake build sqlmodel')
         return 2
     t0 = time.time()
     jobs = []
-    for kind in ('mixed', 'g2long', 'biased', 'gram'):
+    for kind in ('mixed', 'g2long', 'biased', 'assign', 'gram'):
         for j in range(a.jobs):
             jobs.append((kind, a.seed * 1000 + j, a.n, None))
     rs = repo_strings()
